@@ -77,6 +77,7 @@ class PostprocessManager:
                 "-m",
                 "ruff",
                 "check",
+                "--no-cache",
                 "--select=F401",
                 "--fix",
             ]
@@ -101,6 +102,7 @@ class PostprocessManager:
                 "-m",
                 "ruff",
                 "check",
+                "--no-cache",
                 "--select=I",
                 "--fix",
             ]
@@ -125,6 +127,7 @@ class PostprocessManager:
                 "-m",
                 "ruff",
                 "format",
+                "--no-cache",
             ]
             + [str(t) for t in targets],
             stdout=subprocess.PIPE,
@@ -145,6 +148,7 @@ class PostprocessManager:
                 "-m",
                 "ruff",
                 "check",
+                "--no-cache",
                 "--select=F401",
                 "--fix",
                 str(target),
@@ -167,6 +171,7 @@ class PostprocessManager:
                 "-m",
                 "ruff",
                 "check",
+                "--no-cache",
                 "--select=I",
                 "--fix",
                 str(target),
@@ -189,6 +194,7 @@ class PostprocessManager:
                 "-m",
                 "ruff",
                 "format",
+                "--no-cache",
                 str(target),
             ],
             stdout=subprocess.PIPE,
